@@ -179,6 +179,12 @@ class FieldData:
         (self.__class__.STORAGE_KEY == "name" and \
         fieldname == self.__class__.NAME_FIELD):
          renaming_connected = True
+         if value is not None and not gfapy.is_placeholder(value):
+           other = self._gfa.line(value)
+           if other is not None and other is not self:
+             raise gfapy.NotUniqueError(
+               "The identifier {} is already in use\n".format(value)+
+               "Line: {}".format(other))
          self._gfa._unregister_line(self)
     if value is None:
       if fieldname in self._data:
